@@ -125,6 +125,7 @@ def clustering_coef_bd(A):
            = 2 * (K(K-1)/2 - diag(A^2))
            = K(K-1) - 2(diag(A^2))
     '''
+    A = np.asarray(A, dtype=float)  # integer degrees cannot be set to inf below
     S = A + A.T  # symmetrized input graph
     K = np.sum(S, axis=1)  # total degree (in+out)
     cyc3 = np.diag(np.dot(S, np.dot(S, S))) / 2  # number of 3-cycles
